@@ -5,7 +5,10 @@ PROP = dict(
     gen_files={"MM/Gen/C18.lean": "c18"},
     extract_files={"MM/Gen/LockC18.lean": {"cmd": ["go", "run", "{VERIF}/tools/lockshape.go", "LockC18",
         "{REPO}/internal/stream/manager.go", "Stream.CloseWrite,Stream.HandleRemoteFinWrite,Stream.Close,Stream.PushData,Stream.Read", "mu",
-        "state,localFinWrite,remoteFinWrite,remoteFinCh,closed,readBuffer"]}},
+        "state,localFinWrite,remoteFinWrite,remoteFinCh,closed,readBuffer"]},
+        "MM/Gen/LockC18m.lean": {"cmd": ["go", "run", "{VERIF}/tools/lockshape.go", "LockC18m",
+        "{REPO}/internal/stream/manager.go", "Manager.HandleStreamData,Manager.RemoveStream,Manager.HandleStreamReset", "mu",
+        "streams,onStreamData,onStreamClose"]}},
     lean_modules=["MM.Props.C18"],
     theorems=[
         "MM.C18.cap_tie",
@@ -13,6 +16,8 @@ PROP = dict(
         "MM.C18.C18_lock_fin_flags",
         "MM.C18.C18_lock_closewrite_once",
         "MM.C18.C18_lock_state_rmw_one_region",
+        "MM.C18.C18_lock_manager_calls_streams_unlocked",
+        "MM.C18.C18_blocked_push_released_by_close",
         "MM.C18.C18_data_before_eof",
         "MM.C18.C18_fifo",
         "MM.C18.C18_frames_may_arrive_later",
